@@ -1337,7 +1337,7 @@ def rule_deliver_release(res, rid, m):
     for p in m.body_paths():
         if classify(p) != "continuation-completes":
             continue
-        pushes = [n for n in p.calls("std::vector::push_back")]
+        pushes = [n for n in p.calls("std::vector::push_back", "std::vector::emplace_back")]
         okp = False
         for pb in pushes:
             v = paths.path_value(p, pb["args"][0], before=pb["id"])
@@ -1405,7 +1405,7 @@ def rule_unsegmented_delivered(res, rid, m):
         if classify(p) != "unsegmented":
             continue
         ops = m.path_table_ops(p)
-        pushes = list(p.calls("std::vector::push_back"))
+        pushes = list(p.calls("std::vector::push_back", "std::vector::emplace_back"))
         mk = constructions(m.fb, p)
         ok = len(pushes) == 1 and len(mk) == 1 and all(k == "erase" for k, _ in ops)
         res.check(ok, rid, "unsegmented:delivered", pushes[0].get("loc") if pushes else m.decode.loc,
@@ -1557,7 +1557,7 @@ def rule_output_sources(res, rid, m):
     the current key's entry only."""
     n = 0
     for p in m.body_paths():
-        for pb in p.calls("std::vector::push_back"):
+        for pb in p.calls("std::vector::push_back", "std::vector::emplace_back"):
             n += 1
             last = paths.path_value(p, pb["args"][0], before=pb["id"])
             ok = False
@@ -1749,6 +1749,35 @@ def rule_reject_reasons(res, rid, m):
                                   "bytes (legal: the length field is 16 bits) are dropped" % (first_rejected, first_rejected - hdr)
         elif a[0] == "truth" and a[3].get("k") == "call" and callee_name(a[3]) == SEG + "::isValidSegmentType" and a[2] is False:
             key = "reject:invalid-transition"
+        if key is None:
+            # a restatement of what every caller has established already (the message validator accepted (data, size): data is not null and
+            # size >= 16): such a test can never reject anything
+            pre = None
+            hdr1 = m.fb.record(MH)["size"]
+            datap = f.params[0]["decl"] if f.params and f.params[0]["t"].get("k") == "ptr" else None
+            if a[0] == "cmp":
+                for x, y, op in ((a[4], a[5], a[2]), (a[5], a[4], facts._flip_op(a[2]))):
+                    xs = strip_all_casts(facts.expand(f, x))
+                    cy = const_value(strip_all_casts(facts.expand(f, y)))
+                    if xs.get("k") == "ref" and xs.get("decl") in sizep and cy is not None and \
+                            ((op == "<" and cy <= hdr1) or (op == "<=" and cy < hdr1) or (op == "==" and cy < hdr1)):
+                        pre = "size"
+                    if xs.get("k") == "ref" and xs.get("decl") == datap and op == "==" and (strip_all_casts(y).get("null") or cy == 0):
+                        pre = "data"
+            elif a[0] == "truth" and a[2] is False and strip_all_casts(facts.expand(f, a[3])).get("decl") == datap and datap:
+                pre = "data"
+            if pre is not None:
+                sites = [(h, c) for h in m.fb.all_functions() if h.cfg_raw for c in h.calls() if m.fb.resolve_call(c) is f]
+                established = bool(sites)
+                for h, c in sites:
+                    c = facts.effective_call(c)
+                    args = c.get("args", [])
+                    want = "ASAM::CMP::Packet::isValidPacket(%s, %s)" % (canon(strip_all_casts(args[0])), canon(strip_all_casts(args[1]))) if len(args) >= 2 else None
+                    if not any(b[0] == "truth" and b[2] is True and b[1] == want for b in MustFacts(h).at(c)):
+                        established = False
+                key = "reject:restates-precondition:%s" % pre
+                if not established:
+                    why = "addSegment rejects when `%s`, which not every caller has excluded: messages can be dropped for a non-protocol reason" % a[1][:60]
         return key, why
 
     for p in paths.enumerate_paths(f):
